@@ -157,7 +157,7 @@ class C01(PropCheck):
         return run
 
     def generate(self):
-        n = 260 if self.tier == 'quick' else 4200
+        n = 300 if self.tier == 'quick' else 7000
         r = self.rng
         for i in range(n):
             b = r.choice([1, 2, 3, 4, 5, 7])
@@ -295,6 +295,11 @@ class C01(PropCheck):
             nondiv = run['form'] == 'n_sim' and run['n_sim'] % case['b'] != 0
             boundary = run['form'] == 'threshold' and run['threshold'] is not None and float(run['threshold']['v']) < 1
             hit = hit or tie or has_inf or nondiv or boundary
+        for k, (run, ro) in enumerate(zip(case['runs'], out['runs'])):
+            if any(d is None for d in ro['discs']):
+                self.bump('observed:inf_draw_returned_in_%s_run' % ('first' if k == 0 else 'later'))
+            if run['form'] == 'threshold' and run['threshold'] is not None and float(run['threshold']['v']) < 1:
+                self.bump('observed:exact_match_run_batches_%s' % ('<=maxp' if ro['n_batches'] <= case['maxp'] else '>maxp'))
         if not hit:
             return None
         return json.dumps({k: v for k, v in case.items() if k != 'oracle'}, sort_keys=True)
